@@ -137,7 +137,7 @@ def doc_violation(values, k):
 class C04(PropCheck):
     id = 'C04'
     extractors = (break_table.generate,)
-    modules = ('WpModel.Props.C04', 'WpModel.Witness.C04')
+    modules = ('WpModel.Props.C04', 'WpModel.Props.C04Trace', 'WpModel.Witness.C04')
     trusted_base = (
         'modelled, not verified: block_level_page_break / avoid_page_break / force_page_break as table + fold '
         '(tables regenerated from block.py by AST and by calling the real functions)',
@@ -181,6 +181,16 @@ class C04(PropCheck):
             'exactly with the pagination model; non-trivial = at least 2 pages')
         pm_corr.add_cases(run, sec4, run.n(200, 5000), gen=break_heavy_doc)
 
+        sec5 = run.section(
+            'break-families',
+            'deterministic documents (harness/families.py break_documents): every pair of break values on adjacent '
+            'table rows, on a row group and the first row of the next group, and on nested blocks; the pages of the '
+            'last/first fragments and the side of the following page are checked by the Lean adjacency checker '
+            '(C04Trace.obs_sound) which resolves the meeting values with the proved resolution function; '
+            'non-trivial = a forcing or avoiding value is present')
+        for line, meta, nontrivial in break_family_cases():
+            sec5.add(line, 'ok', meta=meta, nontrivial=nontrivial, tags=[meta['doc_id'].split('-')[1]])
+
         class Ctx:
             def __init__(self, col):
                 self.in_column = col
@@ -191,6 +201,9 @@ class C04(PropCheck):
                 sec3.add(sx.line('forces', col, v), str(bool(block.force_page_break(v, Ctx(col)))).lower())
 
     def judge(self, d):
+        if d['section'] == 'break-families':
+            return (f'{d["meta"]["doc_id"]}: forced break / page side not honoured for observations {d["model"]}: '
+                    f'{d["meta"]["observations"]}')
         if d['section'] == 'pm-documents':
             doc = pm_corr.doc_from_json(d['meta']['doc'])
             return pm_break_violation(doc, d['impl'])
@@ -261,6 +274,36 @@ class C04(PropCheck):
         return None
 
 
+def break_family_cases():
+    """(protocol line, meta, nontrivial) for every document of families.break_documents()."""
+    from harness import families, widegen
+    docs.quiet()
+    for doc_id, html, observations in families.break_documents():
+        try:
+            with docs.time_limit(20):
+                document = docs.render(html)
+        except Exception:  # noqa: BLE001 - left to C02
+            continue
+        pages = widegen.page_words(document)
+        where = {}
+        for index, words in enumerate(pages):
+            for word in words:
+                where.setdefault(word, []).append(index)
+        obs = []
+        for values, words_a, words_b in observations:
+            pages_a = [p for word in words_a for p in where.get(word, [])]
+            pages_b = [p for word in words_b for p in where.get(word, [])]
+            if not pages_a or not pages_b:
+                continue
+            page_b = min(pages_b)
+            obs.append([values, max(pages_a), page_b, page_b % 2 == 0, True])
+        if not obs:
+            continue
+        line = sx.line('breaks', obs)
+        meta = {'doc_id': doc_id, 'html': html, 'observations': obs}
+        yield line, meta, any(v != 'auto' for o in obs for v in o[0])
+
+
 def break_heavy_doc(rng):
     doc = pm.gen_doc(rng)
 
@@ -308,6 +351,69 @@ def pm_break_violation(doc, impl_out):
         if box['kind'] == 'block' and box['kids']:
             out += first_chain(box['kids'][0])
         return out
+
+    # orphans / widows: a paragraph broken after content was already on the page keeps >= orphans lines and
+    # sends >= widows lines on
+    para = {}
+
+    def collect(box):
+        if box['kind'] == 'para':
+            para[box['id']] = box
+        for kid in box['kids']:
+            collect(kid)
+    collect(doc['root'])
+    for number, page in enumerate(pages):
+        state = {'placed': 0}
+
+        def lines_of(frag):
+            if frag[0] == 'p':
+                box = para[int(frag[1])]
+                numbers = [int(i) for i, _ in frag[-1]]
+                first_on_page = state['placed'] == 0
+                state['placed'] += len(numbers)
+                if numbers and numbers[-1] < box['n'] - 1 and not first_on_page:
+                    kept, rest = len(numbers), box['n'] - 1 - numbers[-1]
+                    if kept < box['st']['orphans'] or rest < box['st']['widows']:
+                        return (f'page {number}: paragraph {frag[1]} broken with {kept} lines kept / {rest} left '
+                                f'(orphans {box["st"]["orphans"]}, widows {box["st"]["widows"]})')
+            else:
+                for kid in frag[-1]:
+                    bad = lines_of(kid)
+                    if bad:
+                        return bad
+            return None
+        bad = lines_of(page[-1])
+        if bad:
+            return bad
+
+    def start_page_name(box, inherited):
+        name = box['st']['page'] or inherited
+        if box['kind'] == 'block' and box['kids']:
+            return start_page_name(box['kids'][0], name) or name
+        return name
+
+    def end_page_name(box, inherited):
+        name = box['st']['page'] or inherited
+        if box['kind'] == 'block' and box['kids']:
+            return end_page_name(box['kids'][-1], name) or name
+        return name
+
+    def check_names(box, inherited):
+        name = box['st']['page'] or inherited
+        kids = box['kids']
+        for a, b in zip(kids, kids[1:]):
+            before, after = end_page_name(a, name), start_page_name(b, name)
+            if before != after and after and a['id'] in last_page and b['id'] in first_page:
+                if last_page[a['id']] == first_page[b['id']]:
+                    return f'change of named page ({before!r} -> {after!r}) between boxes {a["id"]} and {b["id"]} starts no new page'
+        for kid in kids:
+            bad = check_names(kid, name)
+            if bad:
+                return bad
+        return None
+    bad = check_names(doc['root'], '')
+    if bad:
+        return bad
 
     def check(box):
         kids = box['kids']
